@@ -145,82 +145,87 @@ pub(crate) fn replay_wal(
 
 		log::debug!("Processing WAL segment #{:020}", segment_id);
 
-		// Create a new memtable for this segment
-		let mut current_memtable = Arc::new(MemTable::new(arena_size));
+		// One memtable per segment, always: the caller flushes a memtable with
+		// `log_number = segment + 1`, which is only right if the memtable holds the
+		// whole segment. If the segment does not fit the configured arena (smaller
+		// max_memtable_size than when it was written, skiplist overhead at the
+		// capacity limit), it is replayed again into a larger one.
+		let mut segment_arena_size = arena_size;
+		let (current_memtable, batches_in_segment) = 'segment: loop {
+			let current_memtable = Arc::new(MemTable::new(segment_arena_size));
 
-		// Open the segment file
-		let file = File::open(&segment.file_path)?;
-		let reporter = Box::new(DefaultReporter::new(segment_id));
-		let mut reader = Reader::with_options(file, Some(reporter), segment_id);
+			// Open the segment file
+			let file = File::open(&segment.file_path)?;
+			let reporter = Box::new(DefaultReporter::new(segment_id));
+			let mut reader = Reader::with_options(file, Some(reporter), segment_id);
 
-		let mut batches_in_segment = 0;
-		let mut last_valid_offset = 0;
+			let mut batches_in_segment = 0;
+			let mut last_valid_offset = 0;
 
-		// Process each record in this segment
-		loop {
-			match reader.read() {
-				Ok((record_data, offset)) => {
-					last_valid_offset = offset as usize;
-					let batch = Batch::decode(record_data)?;
-					let batch_highest_seq_num = batch.get_highest_seq_num();
+			// Process each record in this segment
+			loop {
+				match reader.read() {
+					Ok((record_data, offset)) => {
+						last_valid_offset = offset as usize;
+						let batch = Batch::decode(record_data)?;
+						let batch_highest_seq_num = batch.get_highest_seq_num();
 
-					if batch_highest_seq_num > max_seq_num {
-						max_seq_num = batch_highest_seq_num;
-					}
+						if batch_highest_seq_num > max_seq_num {
+							max_seq_num = batch_highest_seq_num;
+						}
 
-					batches_in_segment += 1;
+						batches_in_segment += 1;
 
-					log::debug!(
-						"Replayed batch from WAL #{:020}: seq_num={}, entries={}, offset={}",
-						segment_id,
-						batch_highest_seq_num,
-						batch.count(),
-						offset
-					);
+						log::debug!(
+							"Replayed batch from WAL #{:020}: seq_num={}, entries={}, offset={}",
+							segment_id,
+							batch_highest_seq_num,
+							batch.count(),
+							offset
+						);
 
-					// Apply batch to current memtable with ArenaFull handling
-					match current_memtable.add(&batch) {
-						Ok(()) => {}
-						Err(Error::ArenaFull) => {
-							// Edge case: single segment exceeds memtable capacity
-							if current_memtable.is_empty() {
-								return Err(Error::Other(format!(
+						// Apply batch to current memtable with ArenaFull handling
+						match current_memtable.add(&batch) {
+							Ok(()) => {}
+							Err(Error::ArenaFull) => {
+								// Edge case: single segment exceeds memtable capacity
+								if current_memtable.is_empty() {
+									return Err(Error::Other(format!(
 									"Batch too large for memtable (batch size exceeds arena_size={})",
 									arena_size
 								)));
-							}
-							// Save current memtable and create new one
-							log::warn!(
-								"WAL segment #{:020} exceeds single memtable capacity, splitting",
-								segment_id
+								}
+								log::warn!(
+								"WAL segment #{:020} exceeds memtable capacity {}, replaying it into a larger memtable",
+								segment_id,
+								segment_arena_size
 							);
-							memtables.push((Arc::clone(&current_memtable), segment_id));
-							current_memtable = Arc::new(MemTable::new(arena_size));
-							// Retry on fresh memtable
-							current_memtable.add(&batch)?;
+								segment_arena_size = segment_arena_size.saturating_mul(2);
+								continue 'segment;
+							}
+							Err(e) => return Err(e),
 						}
-						Err(e) => return Err(e),
 					}
+					Err(WalError::Corruption(err)) => {
+						log::error!(
+							"Corrupted WAL record detected in segment {:020} at offset {}: {}",
+							segment_id,
+							last_valid_offset,
+							err
+						);
+						return Err(Error::wal_corruption(
+							segment_id as usize,
+							last_valid_offset,
+							format!("Corrupted WAL record: {}", err),
+						));
+					}
+					Err(WalError::IO(err)) if err.kind() == std::io::ErrorKind::UnexpectedEof => {
+						break 'segment (current_memtable, batches_in_segment); // End of this segment
+					}
+					Err(err) => return Err(err.into()),
 				}
-				Err(WalError::Corruption(err)) => {
-					log::error!(
-						"Corrupted WAL record detected in segment {:020} at offset {}: {}",
-						segment_id,
-						last_valid_offset,
-						err
-					);
-					return Err(Error::wal_corruption(
-						segment_id as usize,
-						last_valid_offset,
-						format!("Corrupted WAL record: {}", err),
-					));
-				}
-				Err(WalError::IO(err)) if err.kind() == std::io::ErrorKind::UnexpectedEof => {
-					break; // End of this segment
-				}
-				Err(err) => return Err(err.into()),
 			}
-		}
+		};
 
 		// Save this segment's memtable if it has data
 		if !current_memtable.is_empty() {
